@@ -21,11 +21,15 @@ RULE = ('one SplitMix64 state; 40% segment pairs (coplanar crossing/non-crossing
         'the plane, running new, area, normal, circumradius, circumcenter, aspect_ratio, centroid, test_point, edge lookup, has_vertex, '
         'compare, vertex, segment, bounds; 20% one of 21 vector/point functions or operator packs with inputs around every threshold; 10% '
         'sphere/cylinder/disk/box constructors + area (valid and panicking arguments); recorded findings first. non-trivial = not a '
-        'pure operator case; distinct = distinct (kind, op, input bits)')
+        'pure operator case; distinct = distinct (kind, op, input bits); thorough tier: also 8000 cases of the f32 build (correspondence only, no oracle)')
 ASSUMPTIONS = [
     'Coq 8.16.1 kernel + vm_compute; theorems are about the real-number instance of the model (exact tier), each with its tolerance written in',
     'model = code: point3d.rs, vector3d.rs, segment3d.rs, triangle3d.rs (non-ray part), bbox3d.rs (new/surface_area/max_extent) and the '
     'constructor-to-area paths of sphere3d.rs, cylinder3d.rs, disk3d.rs are libm-free and are compared bit for bit on primitive floats',
+    'f32 build (thorough tier): the same runner text instantiated on the binary32 instance (module C19f32 of Run/C19.v on NumF32fast, proved equal to the '
+    'Flocq-rounded NumF32 in Run/FastNum32Proof.v) against the harness built with --features float, bit for bit; the f32 generator draws axis-aligned frames 80% '
+    'of the time, origins to 10, noise and neighbour steps in binary32 ulps, bands at 100 x 2^-23 (finding F15: the absolute 1e-7..1e-5 tolerances sit inside binary32 '
+    'rounding noise for oblique metre-scale inputs); CORRESPONDENCE ONLY: the exact-rational oracle does not judge f32 cases',
     'float evaluation vs exact evaluation away from the tolerances is sampled by the exact-rational oracle (1e-9 relative, scaled by the '
     'conditioning of Heron / circumcentre / 2x2 solves), not proved',
     'the closed-form area theorems are definitional (formula read off the code, specialised to 4 pi r^2, 2 pi r h, pi r^2, 2(ab+bc+ca))',
@@ -47,7 +51,12 @@ THEOREMS = ['C19_is_zero_and_compare_spec', 'C19_operator_identities', 'C19_leng
 def streams(tier):
     if tier == 'quick': return [Stream('C19', 2600)]
     if tier == 'search': return [Stream('C19', 12000)]
-    return [Stream('C19', 40000), Stream('C19', 12000, release=True)]
+    # f32 build (thorough tier): correspondence only, the oracle does not judge f32 cases
+    return [Stream('C19', 40000), Stream('C19', 12000, release=True), Stream('C19', 8000, f32=True)]
+
+def is_f32(c, st=None):
+    """cases of the f32 build carry "f32": true (harness/src/c19.rs); the stream flag says the same"""
+    return bool(c.get('f32') or (st is not None and getattr(st, 'f32', False)))
 
 EPS = 2.0 ** -52
 TINY = Fr(100 * EPS)
@@ -63,7 +72,7 @@ STATS = {}
 def stat(k): STATS[k] = STATS.get(k, 0) + 1
 
 def vals(c, st):
-    fm = Fmt(st.f32 if st is not None else False)
+    fm = Fmt(is_f32(c, st))
     return [fm.fl(b) for b in c['in']], [fm.fl(b) for b in c['out']]
 
 def classify(c, st):
@@ -516,6 +525,8 @@ def oracle_area(op, i, o):
     return None
 
 def oracle(c, st):
+    # f32 build: correspondence only (EPS, TINY, E5, E8, REL above are the binary64 constants and margins)
+    if is_f32(c, st): return None
     i, o = vals(c, st)
     if not all(finite(x) for x in o):
         # NaN/inf outputs only arise from degenerate inputs (zero divisors); not judged
